@@ -12,6 +12,13 @@ func VerifC08Once() {
 	ss := packets.Subscription{Filter: "t", Qos: 0}
 	s.Topics.Subscribe("sub", ss)
 	sub.State.Subscriptions.Add("t", ss)
+	if vParam("OWN", 0) == 1 {
+		// the publisher is subscribed to its own topic at QoS 1: the broker allocates outbound packet ids for this
+		// very client while the client's inbound exchange is open (the two id spaces must not disturb each other)
+		ps := packets.Subscription{Filter: "t", Qos: 1}
+		s.Topics.Subscribe("pub", ps)
+		pub.State.Subscriptions.Add("t", ps)
+	}
 	id := vU16()
 	vAssume(id != 0)
 	n := 1 + vLen(vParam("RETX", 2)) // transmissions of the same PUBLISH before PUBREL
